@@ -679,8 +679,9 @@ def blockLoop (mem : Nat) : Nat → Nat → Bytes → Nat → (Sd Unit × Nat)
 /-- `handleBlock` (installed by `RequestBlock`), streaming: the block handler is started once the
     transaction count is read and gets every transaction as it completes; `blockReader` is set as
     soon as the 80-byte header matched the request. The handler (the harness' and the downloader's)
-    returns nil iff it got as many transactions as announced. A recovered makeslice panic leaves the
-    channel open: the handler never returns (`done` stays `none`). -/
+    returns nil iff it got as many transactions as announced. `blockStarted` is set when the handler
+    thread is started (after the count was read). The channel is closed and the handler waited for
+    in one deferred call (fix 3c351de), so also a recovered makeslice panic ends the handler. -/
 def hBlock (e : Env) (s : State) (L : Nat) (inp : Bytes) : HOut :=
   finish L inp.length <|
   match readN 80 inp with
@@ -693,19 +694,19 @@ def hBlock (e : Env) (s : State) (L : Nat) (inp : Bytes) : HOut :=
       if want ≠ hash then { st := s, used := 80 }
       else if !s.blockHandler then { st := completeBlock s hash, used := 80 }
       else
-        let s1 := { s with blockReader := true }
+        let s1 := { s with blockReader := true, blockStarted := false }
         match readVarInt r1 with
         | .need => { st := s1, used := 80, res := .need }
-        | .err => { st := completeBlock s1 hash, used := 80 + min (varIntWidth r1) r1.length, res := .err }
+        | .err => { st := s1, used := 80 + min (varIntWidth r1) r1.length, res := .err }   -- request left outstanding (fix 6b52a4a)
         | .ok txCount r2 =>
           let u2 := inp.length - r2.length
           let run := blockLoop e.mem (r2.length + 1) txCount r2 0
           let rec_ (got : Nat) (done : Option Bool) : BlockRec :=
             { called := true, count := txCount, got := got, done := done }
           match run.1 with
-          | .need => { st := { s1 with bh := rec_ run.2 none }, used := u2, res := .need }
+          | .need => { st := { s1 with blockStarted := true, bh := rec_ run.2 none }, used := u2, res := .need }
           | .err => { st := completeBlock { s1 with bh := rec_ run.2 (some false) } hash, used := u2, res := .err }
-          | .panicked => { st := completeBlock { s1 with bh := rec_ run.2 none } hash, used := u2, res := .err }
+          | .panicked => { st := completeBlock { s1 with bh := rec_ run.2 (some false) } hash, used := u2, res := .err }
           | .oom => { st := s, res := .panic }
           | .ok _ r3 =>
             { st := completeBlock { s1 with bh := rec_ run.2 (some true) } hash, fx := [.updateScore],
